@@ -890,6 +890,22 @@ func (c *specCtx) call(x *ast.CallExpr) specVal {
 		}
 		j := c.eval(args[0])
 		return specVal{term: fmt.Sprintf("(%s %s)", vc.lastIter.keyFn, j.term), typ: vc.lastIter.keyType}
+	case "bytesof":
+		// contents of a seekablebuffer.Buffer at the current mutation epoch (same model as Buffer.Bytes())
+		b := c.eval(args[0])
+		// a seekablebuffer.Buffer embeds the bytes.Buffer whose Bytes() is promoted
+		if pt, ok := b.typ.Underlying().(*types.Pointer); ok {
+			if st, ok := pt.Elem().Underlying().(*types.Struct); ok {
+				for i := 0; i < st.NumFields(); i++ {
+					if st.Field(i).Embedded() && st.Field(i).Name() == "Buffer" && isStructLike(st.Field(i).Type()) {
+						b.term = fmt.Sprintf("(+ %s %d)", b.term, subOffset(pt.Elem(), i))
+					}
+				}
+			}
+		}
+		vc.svDeclare("G_bufepoch", "Int")
+		vc.declareOnceRaw("buf_bytes", "(declare-fun buf_bytes (Int Int) Slice)")
+		return specVal{term: fmt.Sprintf("(buf_bytes %s %s)", b.term, vc.get(c.st, "G_bufepoch")), typ: types.NewSlice(types.Typ[types.Uint8])}
 	case "anylock":
 		vc.svDeclare("G_nheld", "Int")
 		return specVal{term: fmt.Sprintf("(>= %s 1)", vc.get(c.st, "G_nheld")), typ: tBool}
